@@ -216,6 +216,140 @@ pub fn c02_producers(reference: &ExecRecord, rec: &ExecRecord) -> Vec<Violation>
     out
 }
 
+/// Structural soundness of an output font: what any consumer needs before it can use the file
+/// at all. Nothing here judges design or semantics, only that the tables a TrueType-flavoured
+/// font must have are there, parse, and agree with each other on sizes and counts.
+pub fn font_problems(bytes: &[u8]) -> Vec<String> {
+    use write_fonts::read::{FontRef, TableProvider as _, types::{GlyphId, Tag}, tables::glyf::Glyph};
+    let mut out = Vec::new();
+    let font = match FontRef::new(bytes) {
+        Ok(f) => f,
+        Err(e) => return vec![format!("not an sfnt: {e}")],
+    };
+    let has = |t: &[u8; 4]| font.table_data(Tag::new(t)).is_some();
+    for t in [b"head", b"hhea", b"maxp", b"OS/2", b"hmtx", b"cmap", b"name", b"post", b"glyf", b"loca"] {
+        if !has(t) {
+            out.push(format!("required table {} is missing", String::from_utf8_lossy(t)));
+        }
+    }
+    if !out.is_empty() {
+        return out;
+    }
+    macro_rules! parse {
+        ($name:literal, $e:expr) => {
+            match $e {
+                Ok(t) => Some(t),
+                Err(e) => {
+                    out.push(format!("{} does not parse: {e}", $name));
+                    None
+                }
+            }
+        };
+    }
+    let head = parse!("head", font.head());
+    let maxp = parse!("maxp", font.maxp());
+    let hhea = parse!("hhea", font.hhea());
+    let _ = parse!("OS/2", font.os2());
+    let _ = parse!("hmtx", font.hmtx());
+    let _ = parse!("cmap", font.cmap());
+    let _ = parse!("name", font.name());
+    let post = parse!("post", font.post());
+    let glyf = parse!("glyf", font.glyf());
+    let loca = parse!("loca", font.loca(None));
+    if has(b"fvar") { let _ = parse!("fvar", font.fvar()); }
+    if has(b"gvar") { let _ = parse!("gvar", font.gvar()); }
+    if has(b"avar") { let _ = parse!("avar", font.avar()); }
+    if has(b"HVAR") { let _ = parse!("HVAR", font.hvar()); }
+    if has(b"MVAR") { let _ = parse!("MVAR", font.mvar()); }
+    if has(b"STAT") { let _ = parse!("STAT", font.stat()); }
+    if has(b"GDEF") { let _ = parse!("GDEF", font.gdef()); }
+    if has(b"GSUB") { let _ = parse!("GSUB", font.gsub()); }
+    if has(b"GPOS") { let _ = parse!("GPOS", font.gpos()); }
+    if has(b"COLR") { let _ = parse!("COLR", font.colr()); }
+    if has(b"CPAL") { let _ = parse!("CPAL", font.cpal()); }
+    if let Some(head) = &head {
+        let upem = head.units_per_em();
+        if !(16..=16384).contains(&upem) {
+            out.push(format!("head.unitsPerEm is {upem}, outside 16..=16384"));
+        }
+    }
+    let n = maxp.as_ref().map(|m| m.num_glyphs() as usize).unwrap_or(0);
+    if n == 0 {
+        out.push("maxp.numGlyphs is 0".into());
+    }
+    if let Some(hhea) = &hhea {
+        let nm = hhea.number_of_h_metrics() as usize;
+        if nm > n || (nm == 0 && n > 0) {
+            out.push(format!("hhea.numberOfHMetrics {nm} does not fit maxp.numGlyphs {n}"));
+        }
+        let need = nm * 4 + (n.saturating_sub(nm)) * 2;
+        let have = font.table_data(Tag::new(b"hmtx")).map(|d| d.len()).unwrap_or(0);
+        if have < need {
+            out.push(format!("hmtx holds {have} bytes, {need} needed for {n} glyphs"));
+        }
+    }
+    if let (Some(loca), Some(glyf)) = (&loca, &glyf) {
+        if loca.len() != n {
+            out.push(format!("loca has {} entries for {n} glyphs", loca.len()));
+        }
+        if !loca.all_offsets_are_ascending() {
+            out.push("loca offsets are not ascending".into());
+        }
+        let glyf_len = font.table_data(Tag::new(b"glyf")).map(|d| d.len()).unwrap_or(0);
+        for gid in 0..n.min(loca.len()) {
+            match loca.get_glyf(GlyphId::new(gid as u32), glyf) {
+                Ok(None) => {}
+                Ok(Some(Glyph::Simple(g))) => {
+                    let ends: Vec<u16> = g.end_pts_of_contours().iter().map(|e| e.get()).collect();
+                    if ends.windows(2).any(|w| w[0] >= w[1]) {
+                        out.push(format!("glyph {gid}: contour end points are not increasing"));
+                        break;
+                    }
+                }
+                Ok(Some(Glyph::Composite(g))) => {
+                    if let Some(c) = g.components().find(|c| c.glyph.to_u32() as usize >= n) {
+                        out.push(format!("glyph {gid}: component refers to glyph {} of {n}", c.glyph.to_u32()));
+                        break;
+                    }
+                }
+                Err(e) => {
+                    out.push(format!("glyph {gid} does not parse: {e} (glyf is {glyf_len} bytes)"));
+                    break;
+                }
+            }
+        }
+    }
+    if let Some(post) = &post {
+        if post.version() == write_fonts::read::types::Version16Dot16::VERSION_2_0 {
+            let names = post.num_names();
+            if names != n {
+                out.push(format!("post names {names} glyphs, maxp counts {n}"));
+            }
+            // the Pascal strings must tile the rest of the table and be as many as the indexes ask for
+            // (what bytes a name holds is not judged: sources may use names outside ASCII)
+            let raw = font.table_data(Tag::new(b"post")).map(|d| d.as_bytes().to_vec()).unwrap_or_default();
+            let strings = raw.get(34 + 2 * names..).unwrap_or(&[]);
+            let (mut i, mut count) = (0usize, 0usize);
+            while i < strings.len() {
+                i += 1 + strings[i] as usize;
+                count += 1;
+            }
+            if i != strings.len() {
+                out.push(format!("post: the last of {count} name strings overruns the table by {} bytes", i - strings.len()));
+            }
+            let wanted = post
+                .glyph_name_index()
+                .map(|ix| ix.iter().map(|v| v.get() as usize).filter(|v| *v >= 258).map(|v| v - 257).max().unwrap_or(0))
+                .unwrap_or(0);
+            if wanted > count {
+                out.push(format!("post: glyph name index asks for string {wanted}, the table holds {count}"));
+            }
+        }
+    }
+    out.truncate(6);
+    out
+}
+
 /// C15: whatever the input and whatever fails, the run ends, within bounds, in exactly one of
 /// "success and a readable font" or "a diagnostic, failure, and no font".
 pub fn c15(plan: &crate::plan::Plan, rec: &ExecRecord) -> Vec<Violation> {
@@ -239,7 +373,11 @@ pub fn c15(plan: &crate::plan::Plan, rec: &ExecRecord) -> Vec<Violation> {
                 push("ok-after-injected-failure", format!("success reported although {:?} fired", rec.fault_log));
             }
             match rec.font_ok {
-                Some(true) => {}
+                Some(true) => {
+                    if !rec.font_problems.is_empty() {
+                        push("bogus-font", format!("success reported but the font is broken: {}", rec.font_problems.join("; ")));
+                    }
+                }
                 Some(false) => push("ok-without-font", "success reported but the output is not a readable sfnt".into()),
                 None => push("ok-without-font", "success reported but no output file exists".into()),
             }
